@@ -51,7 +51,8 @@ def run(tier):
             for s in (r.get("samples") or [])[:1]:
                 res.sample({"round_scenario": json.loads(s)})
             for d in r["divergences"]:
-                f = match_finding("C05", d["msg"])
+                facts = {"block_processed_twice_within_100ms_by_concurrent_downloads": d["msg"].startswith("TWICE-WITHIN-100MS")}
+                f = match_finding("C05", "not a behaviour of BlockSync.tla: " + d["msg"], facts)
                 if f:
                     res.add_known(f, d["msg"])
                     continue
